@@ -96,11 +96,24 @@ func annPayload(hs []Host) []byte {
 	return b
 }
 
+// "no priorities configured" has three spellings in a service definition: the member is absent, null, or an empty list
+var noPriorityForm int
+
 func servicePayload(schemes []string) []byte {
-	if schemes == nil {
-		schemes = []string{}
+	m := map[string]any{"serviceName": "S", "clusterName": "C"}
+	if len(schemes) == 0 {
+		noPriorityForm++
+		switch noPriorityForm % 3 {
+		case 0: // absent
+		case 1:
+			m["prioritizedSchemes"] = nil
+		case 2:
+			m["prioritizedSchemes"] = []string{}
+		}
+	} else {
+		m["prioritizedSchemes"] = schemes
 	}
-	b, _ := json.Marshal(map[string]any{"serviceName": "S", "clusterName": "C", "prioritizedSchemes": schemes})
+	b, _ := json.Marshal(m)
 	return b
 }
 
